@@ -295,11 +295,24 @@ def c14_streams(ctx):
             if got != exp:
                 miss = [x for x in exp if x not in got]; extra = [x for x in got if x not in exp]
                 s.oracle_failures.append((i, c, im, f"discovery result differs from the specification: missing {miss} unexpected {extra}"))
+        # third pass: the PROVED abstract walker (Dw.visits' over Dw.specEnv = C03's filter specification), instantiated on the same tree
+        proved = second_pass("C14", "discover", lambda c: "DPROVED" + c[4:], ["glob"])
+        if proved is None: s.error = "proved-walker pass of the driver failed"
+        else:
+            nb = 0
+            for i, (c, im, pr) in enumerate(zip(core.read_lines(d / "cases.txt"), core.read_lines(d / "impl.txt"), proved)):
+                f = c.split("\t")
+                explicit = set(f[5].split("\x1f")) if f[5] else set()
+                got = sorted(set(x.split("@")[0] for x in im.split(" ERRS=")[0].split(";") if x) - explicit)
+                if got != sorted(x for x in pr.split(";") if x):
+                    nb += 1
+                    if len(s.disagreements) < 40: s.disagreements.append((i, c, im, "proved walker (visits' over specEnv): " + pr))
+            s.bump("trees also run through the proved abstract walker", len(proved)); s.bump("proved walker differs", nb)
     return [s]
 
 PLANS["C14"] = dict(
-    modules=["Wx.Disc.C14", "Wx.Disc.C14wf", "Wx.Glob.C03"],
-    theorems=["Dw.visit_spec", "Dw.sv_order", "Dw.sv_sound", "Dw.sv_complete", "Dw.visit_spec'", "Sp.C03.scoping_law"],
+    modules=["Wx.Disc.C14", "Wx.Disc.C14wf", "Wx.Glob.C03", "Wx.Disc.C14Inst", "Wx.Disc.Concrete"],
+    theorems=["Dw.discovery_with_c03_filter", "Dw.visit_spec", "Dw.sv_order", "Dw.sv_sound", "Dw.sv_complete", "Dw.visit_spec'", "Sp.C03.scoping_law"],
     bins=[("lib", ["wxdiscover"])],
     streams=c14_streams,
     sources=["crates/ignore-files/src/discover.rs", "crates/ignore-files/src/filter.rs"],
